@@ -29,7 +29,12 @@ class World:
         from barril.units import Array, FixedArray, ObtainQuantity, Scalar
 
         op = c["op"]
-        vals = lambda n: self.cont([float(i + 1) for i in range(n)])
+        def vals(n):
+            if c.get("form") == "points":
+                import numpy
+                pts = [(float(i + 1), float(i + 1) + 0.5) for i in range(n)]
+                return self.rng.choice([lambda: list(pts), lambda: tuple(pts), lambda: numpy.array(pts, dtype=float).reshape(n, 2)])()
+            return self.cont([float(i + 1) for i in range(n)])
         q = lambda u: ObtainQuantity(u, "length")
         if op == "Ctor":
             return FixedArray(c["d"], vals(c["n"]), c["u"])
@@ -62,6 +67,8 @@ class World:
                 return a.ChangingIndex(c["idx"], Scalar(7.5, c["u"]))
             if f == "keep":
                 return a.ChangingIndex(c["idx"], Scalar(7.5, c["u"]), use_value_unit=False)
+            if f == "tuplekeep":
+                return a.ChangingIndex(c["idx"], (None, c["u"]))
             return a.ChangingIndex(c["idx"], (7.5, c["u"]))
         if op == "IndexAsScalar":
             return a.IndexAsScalar(c["idx"], q(c["u"]))
@@ -77,6 +84,12 @@ class World:
         if op in ("SetImage", "SetDomain"):
             import numpy
             flat = [float(i) + (100.0 if op == "SetImage" else 0.0) for i in range(c["n"])]
+            if c.get("form") == "prop":
+                if op == "SetImage":
+                    self.curve.image = Array(flat, "m")
+                else:
+                    self.curve.domain = Array(flat, "s")
+                return None
             vals_ = flat if c.get("form", "") == "" else [(x, x + 0.5) for x in flat]
             if c.get("form") == "points2d":
                 vals_ = numpy.array(vals_, dtype=float).reshape(c["n"], 2)
@@ -118,6 +131,9 @@ def replay_one(t, rep, rng, curve0):
             want = [v[0] / v[1] for v in a["vs"]]
             if type(r).__name__ != "FixedArray":
                 d.append("result class %s" % type(r).__name__)
+            elif c.get("form") == "points":
+                if r.dimension != a["dim"] or len(r.GetAbstractValue()) != r.dimension or r.dimension < 2:
+                    d.append("dimension %r, %d points; predicted dimension %d" % (r.dimension, len(r.GetAbstractValue()), a["dim"]))
             else:
                 vals = [float(v) for v in r.GetAbstractValue()]
                 if r.dimension != a["dim"] or len(vals) != r.dimension or r.dimension < 2:
